@@ -463,7 +463,7 @@ def c18_guarded_file(ctx: Ctx):
         raise AnalysisError('no effect on a key-directory file found in LocalStorage (file_handle anchor lost)')
 
 
-@rule('C18.ROOT-RESOLVED', ['C18', 'C08', 'C06'])
+@rule('C18.ROOT-RESOLVED', ['C18', 'C08', 'C06', 'C03'])
 def root_resolved(ctx: Ctx):
     """LocalStorage pins its directory at construction: the root field is <storage_dir>.resolve() (an absolute,
     symlink-free path), so a later chdir cannot re-anchor the storage."""
